@@ -6,7 +6,12 @@ proxy that counts `write` calls and can make
 
     {"k": "open"}                 the first creation of a file for writing raise OSError(ENOSPC)
     {"k": "write", "i": k, "sent": n}   the k-th write (0-based, over all wrapped files) send n characters, then raise OSError(ENOSPC)
-    {"k": "close"}                the first close of a wrapped file release the descriptor and raise OSError(EIO)
+    {"k": "close", "flushed": f}  the first close of a wrapped file fail with OSError(EIO) the way the OS contract allows:
+                                  of the data still buffered by Python (everything below 8 KiB, else the last chunk)
+                                  a prefix reaches the file - f = "none" | "half" | "all" | <number of bytes> -, the rest
+                                  is lost, the descriptor is released, then the error is raised.  The bytes are written
+                                  through the descriptor itself (os.pwrite), so they land wherever that open file lives
+                                  *now* (e.g. at the destination, if the code renamed the file before closing it).
     {"k": "replace"}              os.replace / os.rename on a path below scratch raise OSError(EIO)
 
 `fired` tells whether the fault was reached; `nwrites` is the number of write calls seen.
@@ -24,6 +29,13 @@ class _Proxy:
     def __init__(self, fh, inj):
         object.__setattr__(self, "_fh", fh)
         object.__setattr__(self, "_inj", inj)
+        object.__setattr__(self, "_chunks", [])
+
+    def _record(self, s):
+        if isinstance(s, str):
+            enc = getattr(self._fh, "encoding", None) or "ascii"
+            s = s.encode(enc, "replace")
+        self._chunks.append(bytes(s))
 
     def write(self, s):
         inj = self._inj
@@ -36,10 +48,13 @@ class _Proxy:
             if sent:
                 try:
                     self._fh.write(s[:sent])
+                    self._record(s[:sent])
                 except UnicodeError:  # the injected fault is the OSError, whatever the prefix contains
                     pass
             raise OSError(errno.ENOSPC, "No space left on device (injected by the C15 harness)")
-        return self._fh.write(s)
+        n = self._fh.write(s)
+        self._record(s)
+        return n
 
     def writelines(self, lines):
         for l in lines:
@@ -50,10 +65,34 @@ class _Proxy:
         if inj.fault["k"] == "close" and not inj.fired:
             inj.fired = True
             try:
-                self._fh.close()  # the descriptor is released, as close(2) does even when it reports an error
+                self._failing_close(inj.fault.get("flushed", "all"))
             finally:
                 raise OSError(errno.EIO, "Input/output error on close (injected by the C15 harness)")
         return self._fh.close()
+
+    def _failing_close(self, flushed):
+        """A prefix of Python's still buffered data reaches the open file, the rest is dropped, the descriptor is
+        released (as close(2) does even when it reports an error)."""
+        fh = self._fh
+        fd = fh.fileno()
+        data = b"".join(self._chunks)
+        on_disk = os.fstat(fd).st_size  # the file was created empty by this handle: what is there was flushed
+        pending = data[on_disk:]
+        k = {"none": 0, "half": len(pending) // 2, "all": len(pending)}.get(flushed, flushed)
+        k = max(0, min(int(k), len(pending)))
+        if k:
+            os.pwrite(fd, pending[:k], on_disk)
+        raw = fh
+        for _ in range(5):  # TextIOWrapper.buffer -> BufferedWriter.raw -> FileIO (also through tempfile's wrapper)
+            nxt = getattr(raw, "buffer", None) or getattr(raw, "raw", None)
+            if nxt is None:
+                break
+            raw = nxt
+        raw.close()  # releases the descriptor without flushing the layers above
+        try:
+            fh.close()  # marks the upper layers closed; their flush now fails and is dropped
+        except Exception:  # noqa: BLE001
+            pass
 
     def __enter__(self):
         self._fh.__enter__()
